@@ -86,13 +86,17 @@ func (r *dataSetRdb) Close() {
 	if r.rwRef.Load() == 0 {
 		return
 	}
+	// do not hold the lock while closing : a reader that closes reports back through DelReader,
+	// which takes the same lock (self dead lock of a cache reset while a snapshot reader is open)
 	r.mux.Lock()
-	defer r.mux.Unlock()
-	if r.writer != nil {
-		r.writer.Close()
+	writer := r.writer
+	readers := append([]*RdbReader(nil), r.readers...)
+	r.mux.Unlock()
+	if writer != nil {
+		writer.Close()
 	}
-	for _, r := range r.readers {
-		r.Close()
+	for _, rd := range readers {
+		rd.Close()
 	}
 }
 
